@@ -88,6 +88,18 @@ def edit_list(items, tier):
             new = list(items)
             new.insert(items.index(a) + 1, h)
             out.append(('hydrogen', 'hydrogen/%s/on-%s' % (hn.strip(), a.name), new))
+    # several input hydrogens listed after the terminal oxygen of a chain end (with and without a TER record following)
+    for i, it in enumerate(items):
+        if not isinstance(it, str) and it.name in ('OXT', "O''"):
+            for nh in (1, 2, 3):
+                new = list(items)
+                for q in range(nh):
+                    h = it.clone()
+                    h.name4, h.tail = (' HXT', ' H  ', ' HA ')[q], '           H'
+                    h.x, h.y, h.z = h.x + 600 + 150 * q, h.y - 500, h.z + 300 * q
+                    new.insert(i + 1 + q, h)
+                out.append(('hydrogen', 'hydrogen/%d-after-OXT' % nh, new))
+            break
     # column rewrites
     def rewrite(fn):
         new = []
@@ -148,6 +160,9 @@ def inputs(tier):
     # a second conformation that consists of copies only (one atom elsewhere has an alternate location): ligand site, salt bridges
     for d in (corpus.cutout_desc('4DFR', 'A', 26, 9.0), corpus.cutout_desc('1HPX', 'A', 24, 9.0), corpus.cluster_desc(('ASP', 'ARG', 'GLU'), 'line', 3.0, 'deep')):
         out.append(dict(src='altcopy', d=d))
+    # a chain end (OXT) directly followed by the next chain, without TER record
+    for ka, kb in (('C-', 'N+'), ('C-', 'LYS'), ('C-', 'HIS')):
+        out.append(dict(src='oxt-no-ter', a=ka, b=kb))
     # metal sites with a ligand atom closer than 2.0 A (bonded by the distance rule): a carboxylate on zinc as in 1FTJ
     out.append(dict(src='corpus', d=corpus.cutout_desc('1FTJ', 'A', 42, 9.0)))
     for a, ion_, dist in (('GLU', 'ZN', 1.95), ('HIS', 'ZN', 1.98), ('ASP', 'CA', 1.9), ('CYS', 'ZN', 1.99)):
@@ -222,6 +237,9 @@ def run_case(case, ctx, acc):
         b.x += 300
         items.insert(k + 1, b)
         s = gen.S(items)
+    elif case['src'] == 'oxt-no-ter':
+        s = gen.pair(case['a'], case['b'], 3.0, level='exposed', offset=gen.seed_offset(ctx.seed))
+        s = gen.S([it for it in s.items if not isinstance(it, str)])      # no TER anywhere: the OXT alone ends the first chain
     elif case['src'] == 'closeion':
         s = gen.pair(case['a'], case['ion'], case['dist'], level='mid', offset=gen.seed_offset(ctx.seed))
     elif case['src'] == 'repeat':
@@ -251,7 +269,9 @@ def run_case(case, ctx, acc):
                                                                                  if family in ('record', 'column') else family, d[0][0]),
                                   '%s: %s' % (sub['edit'], str(d[0])[:300]), inputs=dict(pdb=text0, edited=text, opts=list(opts))))
     eds = edit_list(s.items, ctx.tier)
-    if case['src'] != 'corpus':     # multi-conformation inputs: records and columns only
+    if case['src'] == 'oxt-no-ter':
+        pass
+    elif case['src'] != 'corpus':     # multi-conformation inputs: records and columns only
         eds = [e for e in eds if e[0] in ('record', 'column') and not e[1].startswith(('record/ENDMDL/', 'record/atom/')) or e[1] == 'record/ENDMDL/all-removed']
     for family, name, items in eds:
         compare(dict(case, edit=name), gen.to_text(items), (), family)
